@@ -17,7 +17,8 @@
 (* schedule and to validate recorded runs).                                *)
 (***************************************************************************)
 EXTENDS Naturals, Sequences, FiniteSets, TLC, Json
-CONSTANTS N, K, Fault, DieAt, Assign, Ret
+CONSTANTS N, K, Fault, DieAt, Assign, Ret,
+          MergerDies     \* 0, or k > 0: the k-th merge process spawned by parallel_merging is killed (exit code < 0)
 VARIABLES queue,     \* FIFO of item ids 1..K and Pill
           fill,      \* [idx, st]  st \in {"running", "done", "killed"}
           wst,       \* worker state: "init" | "ready" | "busy" | "pill" | "exit0" | "dead" | "killed"
@@ -125,8 +126,16 @@ MergeRounds(arr) ==
                             r |-> arr[2 * j - 1].r + arr[2 * j].r]
                       ELSE arr[2 * j - 1]]                           \* odd one carried to the next round
        IN  MergeRounds(nxt)
+\* number of merge processes parallel_merging spawns for n sketches: one per pair per round
+RECURSIVE NMergers(_)
+NMergers(n) == IF n <= 1 THEN 0 ELSE (n \div 2) + NMergers((n + 1) \div 2)
+\* a merge process dies (killed by the OOM killer ...): p.exitcode < 0 => RuntimeError, no result
+MergeFails ==
+  /\ mpc = "merge" /\ MergerDies > 0 /\ MergerDies <= NMergers(N)
+  /\ mpc' = "raised" /\ result' = [st |-> "raised"]
+  /\ UNCHANGED <<queue, fill, wst, wcur, wcnt, bag, part, rec, flushed, deq, closed>>
 MergeAndReturn ==
-  /\ mpc = "merge"
+  /\ mpc = "merge" /\ ~(MergerDies > 0 /\ MergerDies <= NMergers(N))
   /\ LET fin == MergeRounds([w \in W |-> [b |-> bag[w], p |-> part[w], r |-> flushed[w]]])[1]
      IN  result' = [st |-> "returned", bag |-> fin.b, part |-> fin.p, nrec |-> fin.r]
   /\ mpc' = "returned"
@@ -136,12 +145,12 @@ Terminated == mpc \in {"returned", "raised"}
 Next ==
   \/ FillPut
   \/ \E w \in W : WStart(w) \/ WGet(w) \/ WProcess(w) \/ WPill(w)
-  \/ MonitorPass \/ JoinFill \/ JoinWorkers \/ PreLog \/ MergeAndReturn
+  \/ MonitorPass \/ JoinFill \/ JoinWorkers \/ PreLog \/ MergeAndReturn \/ MergeFails
   \/ (Terminated /\ UNCHANGED vars)
 Spec == Init /\ [][Next]_vars
 Fairness ==
   /\ WF_vars(FillPut) /\ WF_vars(MonitorPass) /\ WF_vars(JoinFill) /\ WF_vars(JoinWorkers)
-  /\ WF_vars(PreLog) /\ WF_vars(MergeAndReturn)
+  /\ WF_vars(PreLog) /\ WF_vars(MergeAndReturn) /\ WF_vars(MergeFails)
   /\ \A w \in W : WF_vars(WStart(w)) /\ WF_vars(WGet(w)) /\ WF_vars(WProcess(w)) /\ WF_vars(WPill(w))
 FairSpec == Spec /\ Fairness
 
@@ -170,6 +179,7 @@ RaiseKeepsOthers ==
     /\ result.bag \cup result.part \subseteq Items
     /\ result.nrec = SumRet(OkItems)                     \* n_records counts only the successful items
 DeathNeverReturns == (\E w \in W : wst[w] = "dead") => mpc # "returned"
+MergerDeathNeverReturns == (MergerDies > 0 /\ MergerDies <= NMergers(N)) => mpc # "returned"
 DeathRaises == (mpc = "returned") => NoDeath \/ \A w \in W : wst[w] # "dead"
 QueueBounded == Len(queue) <= Cap
 Termination == <>Terminated
